@@ -49,4 +49,83 @@ theorem use_numba_off (truth : Term → Bool) (h : truth (Term.sym "dataiter.USE
     eligible truth (aggregate_use_numba truth) = some false := by
   simp [aggregate_use_numba, eligible, h]
 
+/-! ### the duplicated kernels: the Numba versions have the SAME shape as the Python ones
+
+  `groupScan` (below, the same scan as `Tie.C07.groupScan`, restated here so that C08's obligations need only C08's
+  regenerated file) is instantiated twice in the source: with `x.is_na()` / `yield` (Python) and with `is_na_numba(x)` /
+  `out.append` (Numba).  What differs between the two paths is therefore exactly: the missing-value test, and NumPy's
+  functions as compiled by Numba. -/
+
+def groupScan (isNa emit : Term → Term) : Term :=
+  Term.app "for" [Term.sym "j", Term.app "range" [Term.int 1, Term.app "Add" [Term.app "len" [Term.sym "x"], Term.int 1]], Term.app "block"
+    [Term.app "if" [Term.app "And" [Term.app "Lt" [Term.sym "j", Term.app "len" [Term.sym "x"]],
+        Term.app "Eq" [Term.app "getitem" [Term.sym "group", Term.sym "j"], Term.app "getitem" [Term.sym "group", Term.sym "i"]]],
+      Term.app "block" [Term.sym "continue"], Term.app "block" []],
+     Term.app "assign" [Term.sym "xij", Term.app "getitem" [Term.sym "x", Term.app "slice" [Term.sym "i", Term.sym "j"]]],
+     Term.app "if" [Term.sym "drop_na", Term.app "block" [Term.app "assign" [Term.sym "xij",
+        Term.app "getitem" [Term.sym "xij", Term.app "~" [isNa (Term.sym "xij")]]]], Term.app "block" []],
+     emit (Term.sym "xij"),
+     Term.app "assign" [Term.sym "i", Term.sym "j"]],
+    Term.app "init" [Term.sym "i", Term.int 0]]
+
+/-- the Numba group scan: the same cut into runs, the same place of the NA drop; the runs are collected into a list. -/
+theorem yield_groups_numba_code (truth : Term → Bool) :
+    agg_yield_groups_numba truth =
+      Out.ret [groupScan (fun r => Term.app "is_na_numba" [r]) (fun r => Term.app ".append" [Term.app "list" [], r])] (Term.app "list" []) := rfl
+
+/-- `for xg in yield_groups_numba(...): out.append(<value xg>)`; the kernel returns `out`. -/
+def perGroupNumba (value : Term) : Out :=
+  Out.ret [Term.app "for" [Term.sym "xg", Term.app "yield_groups_numba" [Term.sym "x", Term.sym "group", Term.sym "drop_na"],
+    Term.app "block" [Term.app ".append" [Term.app "list" [], value]]]] (Term.app "list" [])
+
+theorem count_unique_numba_code (truth : Term → Bool) :
+    agg_count_unique_apply_numba truth = perGroupNumba (Term.app "len" [Term.app "np.unique" [Term.sym "xg"]]) := rfl
+
+theorem quantile_numba_code (truth : Term → Bool) :
+    agg_quantile_apply_numba truth = perGroupNumba (Term.app "ifexp" [Term.app "GtE" [Term.app "len" [Term.sym "xg"], Term.int 1],
+      Term.app "np.quantile" [Term.sym "xg", Term.sym "q"], Term.sym "np.nan"]) := rfl
+
+/-- nth under Numba: the element at `index` when `0 <= index < len` or `-len <= index < 0` — the two ranges in which Python's
+    `xg[index]` does not raise — None otherwise: the same function of (run, index) as the Python kernel's try / except. -/
+theorem nth_numba_code (truth : Term → Bool) :
+    agg_nth_apply_numba truth = Out.ret [Term.app "for" [Term.sym "xg", Term.app "yield_groups_numba" [Term.sym "x", Term.sym "group", Term.sym "drop_na"],
+      Term.app "block" [Term.app "if" [Term.app "Or" [Term.app "LtE/Lt" [Term.int 0, Term.sym "index", Term.app "len" [Term.sym "xg"]],
+          Term.app "LtE/Lt" [Term.app "neg" [Term.app "len" [Term.sym "xg"]], Term.sym "index", Term.int 0]],
+        Term.app "block" [Term.app ".append" [Term.app "list" [], Term.app "getitem" [Term.sym "xg", Term.sym "index"]]],
+        Term.app "block" [Term.app ".append" [Term.app "list" [], Term.sym "None"]]]]]] (Term.app "list" []) := rfl
+
+/-- mode under Numba: for EVERY size of run, count for each position how many elements equal it and take the element at
+    the FIRST position with the greatest count (`np.argmax`): most common, ties by first occurrence in the run's order —
+    the tie rule of `statistics.mode`; None for an empty run. -/
+theorem mode_numba_code (truth : Term → Bool) :
+    agg_mode_apply_numba truth = Out.ret [Term.app "for" [Term.sym "xg", Term.app "yield_groups_numba" [Term.sym "x", Term.sym "group", Term.sym "drop_na"],
+      Term.app "block" [Term.app "if" [Term.app "Gt" [Term.app "len" [Term.sym "xg"], Term.int 0],
+        Term.app "block"
+          [Term.app "assign" [Term.sym "ng", Term.app "np.full" [Term.app "len" [Term.sym "xg"], Term.int 0]],
+           Term.app "for" [Term.sym "i", Term.app "range" [Term.app "len" [Term.sym "xg"]], Term.app "block"
+             [Term.app "for" [Term.sym "j", Term.app "range" [Term.app "len" [Term.sym "xg"]], Term.app "block"
+               [Term.app "if" [Term.app "Eq" [Term.app "getitem" [Term.sym "xg", Term.sym "j"], Term.app "getitem" [Term.sym "xg", Term.sym "i"]],
+                  Term.app "block" [Term.app "store" [Term.app "getitem" [Term.sym "ng", Term.sym "i"],
+                    Term.app "Add=" [Term.app "getitem" [Term.sym "ng", Term.sym "i"], Term.int 1]]], Term.app "block" []]]]]],
+           Term.app ".append" [Term.app "list" [], Term.app "getitem" [Term.sym "xg", Term.app "np.argmax" [Term.sym "ng"]]]],
+        Term.app "block" [Term.app ".append" [Term.app "list" [], Term.sym "None"]]]]]] (Term.app "list" []) := rfl
+
+/-- the generic Numba kernel: the same guard (`len(xg) >= nrequired`, after the drop) and the same default as `generic`. -/
+theorem generic_numba_code (truth : Term → Bool) :
+    agg_generic_numba truth = Out.ret [] (Term.app "local-def" [Term.app "def"
+      [Term.app "decorator" [Term.app "njit" [Term.app "=cache" [Term.sym "dataiter.USE_NUMBA_CACHE"]]], Term.sym "aggregate",
+       Term.app "params" [Term.sym "x", Term.sym "group", Term.sym "drop_na", Term.sym "default", Term.sym "nrequired"],
+       Term.app "block" [Term.app "assign" [Term.sym "out", Term.app "list" []],
+         Term.app "for" [Term.sym "xg", Term.app "yield_groups_numba" [Term.sym "x", Term.sym "group", Term.sym "drop_na"],
+           Term.app "block" [Term.app ".append" [Term.sym "out", Term.app "ifexp" [Term.app "GtE" [Term.app "len" [Term.sym "xg"], Term.sym "nrequired"],
+             Term.app "function" [Term.sym "xg"], Term.sym "default"]]]],
+         Term.app "return" [Term.sym "out"]]]]) := rfl
+
+/-- the Numba missing-value test is element-wise (`is_na_item_numba` per element, dispatched on the element type). -/
+theorem is_na_numba_code (truth : Term → Bool) :
+    agg_is_na_numba truth =
+      let na := Term.app "np.full" [Term.app "len" [Term.sym "x"], Term.sym "False"]
+      Out.ret [Term.app "for" [Term.sym "i", Term.app "range" [Term.app "len" [Term.sym "x"]], Term.app "block"
+        [Term.app "store" [Term.app "getitem" [na, Term.sym "i"], Term.app "is_na_item_numba" [Term.app "getitem" [Term.sym "x", Term.sym "i"]]]]]] na := rfl
+
 end DI.Tie.C08
